@@ -201,6 +201,13 @@ class Judge(object):
         self.failed = set()
 
     def bad(self, clause, msg, **extra):
+        if clause == "inputs-modified":
+            # Not a violation of this property: its statement says what the smeared values are, not that the objects
+            # handed in stay untouched (on the unchanged tree Pinhole2D(data, index=None) clamps zero widths of the
+            # caller's dqx_data/dqy_data to 1e-10 in place).  Consequences that the statement does cover are judged
+            # by the second-use / shared-state clauses; the modification itself is only counted in the evidence.
+            self.r.branches["observation:inputs-modified:%s" % extra.get("what", "?")] += 1
+            return
         if clause in self.failed:
             return
         self.failed.add(clause)
